@@ -7,6 +7,7 @@ from symnp import ir, scalars as S, arrays as A, facade
 from symnp.scalars import SC
 from . import common as H
 from . import torchsup as T
+from . import C12m
 
 TOL = 1e-9
 ch = numqi.channel
@@ -289,4 +290,5 @@ def run(chk):
             chk.add(f'{name} reach (path {pi})', pre + path.pc + path.facts, ir.TRUE, kind='reach')
             chk.notes_from(path)
     chk.notes_from(ctx)
+    C12m.run_slice(chk, quick, random.Random(chk.seed + 2))
     chk.solve(timeout_s=60 if quick else 300)
